@@ -234,3 +234,18 @@ func Verif_C05_K6_FilesystemOwnedDirs() {
 	v.Assume(s != "/run" && s != "/srv" && s != "/sys" && s != "/tmp" && s != "/usr" && s != "/var" && s != "/sbin" && s != "/root" && s != "/proc" && s != "/opt")
 	v.Assert(!ownedByFilesystem(s), "unlisted-directory-is-not-filesystem-owned")
 }
+
+// Verif_C13_PackagerTag: the per-packager clause of C13 at the planning
+// kernel: an entry addressed to one packager is never relevant for another,
+// whatever its type (including the types that belong to one format).
+func Verif_C13_PackagerTag() {
+	formats := []string{"deb", "rpm", "apk", "archlinux", "ipk"}
+	pk := formats[v.NondetChoice("packager", len(formats))]
+	tag := formats[v.NondetChoice("tag", len(formats))]
+	typ := verifC05types[v.NondetChoice("type", len(verifC05types))]
+	got := isRelevantForPackager(pk, &Content{Type: typ, Packager: tag})
+	v.Reach("C13.tag.ran")
+	if tag != pk {
+		v.Assert(!got, "entry-addressed-to-another-packager-is-never-relevant")
+	}
+}
